@@ -168,7 +168,7 @@ def model_compare(ctx, name, reqs, impl):
 def check(ctx):
     ok_gen = core.step_gen(ctx, ['Keys', 'Filter'])
     prove = core.step_prove(ctx, MODS) if ok_gen else {'module': ' '.join(MODS), 'obligations': 0, 'discharged': 0}
-    ok_drv = core.step_drv(ctx) if ok_gen else False
+    ok_drv = core.step_drv(ctx) if (ok_gen or ctx.search_mode) else False
     ok_impl = core.step_build_impl(ctx)
     orc, corr = (None, [])
     if ok_impl:
